@@ -1,5 +1,6 @@
 import Lean.Data.Json
 import CobraModel.Model.DictIO
+import CobraModel.Gen.DictKeys
 /-! Line-protocol driver for the reaction <-> dict model. -/
 open Lean DictIO Core
 
@@ -25,7 +26,32 @@ def valJson : Val → Json
   | .num q => Json.str (ratStr q)
   | .mets kv => Json.arr (kv.map (fun (k, v) => Json.arr #[Json.str k, Json.str (ratStr v)])).toArray
 
+open Gen.DictKeys in
+def parseDV (j : Json) : DV :=
+  match j with
+  | .null => .none
+  | .str s => .str s
+  | .num n => if n.exponent == 0 then .int n.mantissa else .other (toString n)
+  | .arr a => if a.isEmpty then .emptyList else .other j.compress
+  | .obj _ => if j.compress == "{}" then .emptyDict else .other j.compress
+  | .bool b => .other (toString b)
+
+open Gen.DictKeys in
+/-- which keys does the scheme write for an object with these attribute values? -/
+def handleScheme (j : Json) : Except String Json := do
+  let kind ← (← j.getObjVal? "scheme").getStr?
+  let sch ← match kind with
+    | "reaction" => pure reaction | "metabolite" => pure metabolite | "gene" => pure gene | "model" => pure Gen.DictKeys.model
+    | k => throw s!"bad scheme {k}"
+  let attrs ← j.getObjVal? "attrs"
+  let a : String → DV := fun k => match attrs.getObjVal? k with | .ok v => parseDV v | .error _ => .none
+  let d := DictScheme.toDict sch a
+  let back := DictScheme.fromDict sch .none d
+  pure (Json.mkObj [("keys", Json.arr (d.map (fun p => Json.str p.1)).toArray),
+                    ("roundtrip", Json.bool (sch.keys.all (fun k => back k == a k)))])
+
 def handle (j : Json) : Except String Json := do
+  if (j.getObjVal? "scheme").isOk then return ← handleScheme j
   let s (k : String) : Except String String := do (← j.getObjVal? k).getStr?
   let mets ← (← (← j.getObjVal? "mets").getArr?).toList.mapM (fun p => do
     let a ← p.getArr?
